@@ -222,6 +222,39 @@ def argument_form_cases():
         yield {'name': 'argument_form|iast_binary_vle|int_pressure', 'ok': False, 'detail': f"{type(exc).__name__}: {exc}"[:200]}
 
 
+def guess_cases():
+    """user starting guesses, including degenerate ones (a zero fraction, fractions not summing to one): whenever the calculation
+    returns, what it returns satisfies the IAST equations -- a result that is not a number is not an answer"""
+    import pygaps.iast as pgi
+    from pygaps.utilities.exceptions import pgError
+    isos = [_iso('Langmuir', {'K': 1.0, 'n_m': 5.0}, 0), _iso('Langmuir', {'K': 3.0, 'n_m': 5.0}, 1)]
+    for g in ([0.5, 0.5], [0.9, 0.1], [1.0, 0.0], [0.0, 1.0], [0.3, 0.3], [1e-12, 1.0 - 1e-12]):
+        name = f"user_guess|iast_point|{g}"
+        try:
+            got = numpy.asarray(pgi.iast_point(isos, [1.0, 1.0], adsorbed_mole_fraction_guess=g, warningoff=True), dtype=float)
+            probs = [f"returned {got}"] if not numpy.all(numpy.isfinite(got)) else check_equations(isos, [1.0, 1.0], got)
+            yield {'name': name, 'ok': not probs, 'detail': '; '.join(probs)}
+        except Exception as exc:  # (the property speaks about calculations that return)
+            yield {'name': name, 'ok': True, 'detail': f"refused: {type(exc).__name__}"}
+    for g in ([0.5, 0.5], [1.0, 0.0], [0.0, 1.0]):
+        name = f"user_guess|reverse_iast|{g}"
+        try:
+            y, lo = pgi.reverse_iast(isos, [0.25, 0.75], 2.0, gas_mole_fraction_guess=g, warningoff=True)
+            y, lo = numpy.asarray(y, dtype=float), numpy.asarray(lo, dtype=float)
+            probs = [f"returned {y}, {lo}"] if not (numpy.all(numpy.isfinite(y)) and numpy.all(numpy.isfinite(lo))) else check_equations(isos, list(y * 2.0), lo)
+            yield {'name': name, 'ok': not probs, 'detail': '; '.join(probs)}
+        except Exception as exc:
+            yield {'name': name, 'ok': True, 'detail': f"refused: {type(exc).__name__}"}
+
+
+@replayer('c13.guess')
+def _guess(spec, model):
+    for r in guess_cases():
+        if r['name'] == spec['name']:
+            return {'confirmed': not r['ok'], 'observed': r['detail'], 'expected': 'a result satisfying the IAST equations, or a refusal'}
+    return {'confirmed': False, 'error': 'case not found'}
+
+
 @replayer('c13.form')
 def _form(spec, model):
     for r in argument_form_cases():
